@@ -202,8 +202,16 @@ def run_case(case):
     viol = []
     tables = {n: table(i) for i, n in enumerate(names)}
 
+    # a third of the cases: all resources are described by ONE schema object (aliasing between selected and
+    # unselected resources must not let a step edit the unselected ones)
+    shared = boot.rng(case.get('seed', 0), 'C10', 'shared', case.get('idx', 0)).random() < 0.33 and len(names) > 1
+
     def srcs(only=None):
+        if shared and only is None:
+            return [lab.shared_source(names, FIELDS, tables)]
         return [lab.source(n, FIELDS, tables[n]) for n in names if only is None or n == only]
+    if shared:
+        cov['proc_x_form']['resources_share_one_schema_object'] = 1
 
     try:
         want_sel = refmodel.sel(s, names)
